@@ -57,8 +57,8 @@ PERTURB = {"MALLOC_PERTURB_": "85"}
 
 def plan(tier):
     if tier == "thorough":
-        return [{"variant": "plain", "workers": 12, "cases": 2400, "name": "plain", "env": PERTURB},
-                {"variant": "asan", "workers": 4, "cases": 240, "name": "asan"}]
+        return [{"variant": "plain", "workers": 12, "cases": 2000, "name": "plain", "env": PERTURB},
+                {"variant": "asan", "workers": 4, "cases": 200, "name": "asan"}]
     return [{"variant": "plain", "workers": 7, "cases": 300, "name": "plain", "env": PERTURB},
             {"variant": "asan", "workers": 1, "cases": 40, "name": "asan"}]
 
